@@ -111,6 +111,7 @@ type Exec struct {
 	keptMaps  [][2]wire.Parameters // parameter maps callbacks kept, each with a copy of what it held then
 	Sched     *Sched // set when goroutines are under schedule control (C16 / C15)
 	Global    wire.Parameters
+	GlobalBase wire.Parameters // a map given to an earlier GlobalParameters option (replaced by the later one)
 	TLS       *tls.Config // the configuration handed to the server (the user's object) ...
 	tlsSnap   *tls.Config // ... and a copy taken before the server saw it
 	ctxMu     sync.Mutex
@@ -166,6 +167,12 @@ func NewExec(cfg M) (*Exec, error) {
 			g[wire.ParameterStatus(k)] = fmt.Sprint(v)
 		}
 		x.Global = g
+		if len(g)%2 == 1 {
+			// the option may be given more than once (defaults first, then the deployment's map): the last one is
+			// the map the server announces, and the earlier map stays what its owner made it
+			x.GlobalBase = wire.Parameters{"verif_base_only": "1", "TimeZone": "base"}
+			opts = append(opts, wire.GlobalParameters(x.GlobalBase))
+		}
 		opts = append(opts, wire.GlobalParameters(g))
 	}
 	if v := S(cfg, "version"); v != "" {
@@ -209,6 +216,8 @@ func NewExec(cfg M) (*Exec, error) {
 		}))
 	}
 	emptyViaField := false
+	var tlsViaField, tlsLate *tls.Config
+	var tlsLateCert tls.Certificate
 	switch S(cfg, "tls") {
 	case "empty":
 		// an empty certificate list reaches the server through the option or through the exported field
@@ -237,7 +246,18 @@ func NewExec(cfg M) (*Exec, error) {
 		case 3:
 			tc.MinVersion = tls.VersionTLS12
 		}
-		opts = append(opts, wire.TLSConfig(tc))
+		switch I(cfg, "_tlsvar") {
+		case 4:
+			tlsViaField = tc // the configuration reaches the server through the exported field, not the option
+		case 5:
+			// the option is given a configuration that gets its certificate afterwards (still before Serve)
+			late := &tls.Config{}
+			opts = append(opts, wire.TLSConfig(late))
+			tlsLate, tlsLateCert = late, c
+			tc = late
+		default:
+			opts = append(opts, wire.TLSConfig(tc))
+		}
 		x.TLS, x.tlsSnap = tc, tc.Clone()
 	}
 	var parse wire.ParseFn = x.parse
@@ -251,9 +271,24 @@ func NewExec(cfg M) (*Exec, error) {
 	if emptyViaField {
 		srv.TLSConfig = &tls.Config{}
 	}
+	if tlsViaField != nil {
+		srv.TLSConfig = tlsViaField
+	}
+	if tlsLate != nil {
+		tlsLate.Certificates = []tls.Certificate{tlsLateCert}
+		x.tlsSnap = tlsLate.Clone()
+	}
 	x.Srv = srv
 	go func() { x.served <- srv.Serve(x.Lis) }()
 	return x, nil
+}
+
+// ConfigIntact: every configuration object the user handed to the server is as the user made it.
+func (x *Exec) ConfigIntact() bool {
+	if x.GlobalBase != nil && (len(x.GlobalBase) != 2 || x.GlobalBase["verif_base_only"] != "1" || x.GlobalBase["TimeZone"] != "base") {
+		return false
+	}
+	return x.TLSIntact()
 }
 
 // TLSIntact: the TLS configuration the user handed to the server is as the user made it (it is the user's object,
